@@ -11,11 +11,13 @@
 (***************************************************************************)
 EXTENDS Naturals, Sequences, TLC, Json
 
-CONSTANTS Offsets,   \* byte offsets for the cut faults
+CONSTANTS OffSet,    \* byte offsets for the cut faults, or {} = every offset up to OffHi
+          OffHi,
           Slow       \* TRUE: include the faults that cost one timeout each for every position / request kind
 
 VARIABLES sc, emitted
 
+Offsets == IF OffSet = {} THEN 0..OffHi ELSE OffSet
 Positions == 0..2
 Reqs == {"CreateContainer", "UpdateContainer", "StopContainer", "StartContainer", "UpdatePodSandbox"}
 FastFaults == {"none", "close-before", "close-during", "handler-error", "close-after", "wrong-frame"}
